@@ -375,6 +375,209 @@ def renumber(fn):
     return fn
 
 
+# ---------------------------------------------------------------------------------------------------------------------
+# normalisations: the same data flow written through a container literal becomes plain local names
+# ---------------------------------------------------------------------------------------------------------------------
+def _stmt_lists(fn):
+    for parent in ast.walk(fn):
+        for fld in ("body", "orelse", "finalbody"):
+            lst = getattr(parent, fld, None)
+            if isinstance(lst, list) and lst and isinstance(lst[0], ast.stmt):
+                yield lst
+        if isinstance(parent, ast.Try):
+            for h in parent.handlers:
+                yield h.body
+
+
+def _bindings(fn, name):
+    out = []
+    for n in ast.walk(fn):
+        if isinstance(n, ast.Name) and isinstance(n.ctx, (ast.Store, ast.Del)) and n.id == name:
+            out.append(n)
+    return out
+
+
+def _other_uses(fn, name, allowed_ids):
+    """uses of `name` other than the nodes whose id() is in allowed_ids"""
+    return [n for n in ast.walk(fn) if isinstance(n, ast.Name) and n.id == name and id(n) not in allowed_ids]
+
+
+def scalarise_dict_literals(fn):
+    """`d = {"k": e, ...}` / `d = dict(k=e, ...)` (the only binding of d besides `d = None`, constant keys, d never mutated): the entries
+    become locals `d__k = e` at the place of the literal (which then reads `d = {"k": d__k, ...}`), `**d` becomes `k=d__k, ...`,
+    `d["k"]` and `d.get("k")` become `d__k`."""
+    changed = False
+    for lst in list(_stmt_lists(fn)):
+        for idx, st in enumerate(list(lst)):
+            tgt = None
+            if isinstance(st, ast.Assign) and len(st.targets) == 1 and isinstance(st.targets[0], ast.Name):
+                tgt = st.targets[0]
+            elif isinstance(st, ast.AnnAssign) and isinstance(st.target, ast.Name) and st.value is not None:
+                tgt = st.target
+            if tgt is None or getattr(st, "_scalarised", False):
+                continue
+            v = st.value
+            if isinstance(v, ast.Call) and isinstance(v.func, ast.Name) and v.func.id == "dict" and not v.args and v.keywords and all(k.arg for k in v.keywords):
+                keys, vals = [k.arg for k in v.keywords], [k.value for k in v.keywords]
+            elif isinstance(v, ast.Dict) and v.keys and all(isinstance(k, ast.Constant) and isinstance(k.value, str) and k.value.isidentifier() for k in v.keys):
+                keys, vals = [k.value for k in v.keys], list(v.values)
+            else:
+                continue
+            d = tgt.id
+            others = [n for n in _bindings(fn, d) if n is not tgt]
+            pm = {}
+            for par in ast.walk(fn):
+                for ch in ast.iter_child_nodes(par):
+                    pm[ch] = par
+            if any(not (isinstance(pm.get(n), ast.Assign) and isinstance(pm[n].value, ast.Constant) and pm[n].value.value is None) for n in others):
+                continue
+            mutated = False
+            star_calls, loads = [], []
+            for n in ast.walk(fn):
+                if isinstance(n, ast.Call):
+                    for k in n.keywords:
+                        if k.arg is None and isinstance(k.value, ast.Name) and k.value.id == d:
+                            if any(kk.arg in keys for kk in n.keywords if kk.arg):
+                                mutated = True
+                            star_calls.append((n, k))
+                    if isinstance(n.func, ast.Attribute) and isinstance(n.func.value, ast.Name) and n.func.value.id == d:
+                        if n.func.attr == "get" and len(n.args) == 1 and isinstance(n.args[0], ast.Constant) and n.args[0].value in keys:
+                            loads.append(n)
+                        elif n.func.attr not in ("keys", "values", "items", "copy"):
+                            mutated = True
+                if isinstance(n, ast.Subscript) and isinstance(n.value, ast.Name) and n.value.id == d:
+                    if isinstance(n.ctx, ast.Load) and isinstance(n.slice, ast.Constant) and n.slice.value in keys:
+                        loads.append(n)
+                    elif not isinstance(n.ctx, ast.Load):
+                        mutated = True
+            if mutated or not (star_calls or loads):
+                continue
+            pre = []
+            for k, e in zip(keys, vals):
+                pre.append(ast.copy_location(ast.Assign(targets=[ast.Name(id=f"{d}__{k}", ctx=ast.Store())], value=e), st))
+            for (call, kw) in star_calls:
+                pos_ = call.keywords.index(kw)
+                call.keywords[pos_:pos_ + 1] = [ast.keyword(arg=k, value=ast.Name(id=f"{d}__{k}", ctx=ast.Load())) for k in keys]
+            for n in loads:
+                key = n.slice.value if isinstance(n, ast.Subscript) else n.args[0].value
+                new = ast.copy_location(ast.Name(id=f"{d}__{key}", ctx=ast.Load()), n)
+                n.__class__ = ast.Name
+                n.__dict__.clear()
+                n.__dict__.update(new.__dict__)
+            keep = ast.copy_location(ast.Assign(targets=[ast.Name(id=d, ctx=ast.Store())],
+                                                value=ast.Dict(keys=[ast.Constant(value=k) for k in keys], values=[ast.Name(id=f"{d}__{k}", ctx=ast.Load()) for k in keys])), st)
+            keep._scalarised = True
+            k0 = lst.index(st)
+            lst[k0:k0 + 1] = pre + [keep]
+            changed = True
+    if changed:
+        ast.fix_missing_locations(fn)
+    return changed
+
+
+def fold_attribute_stores(fn):
+    """`x = Ctor(a=1)` directly followed by `x.b = e` statements (x not used in e): the stores become keyword arguments `b=e` of the
+    constructor call, which then sits where the last store was (dataclass constructors only set fields)."""
+    changed = False
+    for lst in list(_stmt_lists(fn)):
+        k = 0
+        while k < len(lst):
+            st = lst[k]
+            if isinstance(st, ast.Assign) and len(st.targets) == 1 and isinstance(st.targets[0], ast.Name) and isinstance(st.value, ast.Call) \
+                    and isinstance(st.value.func, ast.Name) and st.value.func.id[:1].isupper() and not any(kw.arg is None for kw in st.value.keywords):
+                x = st.targets[0].id
+                j = k + 1
+                extra = []
+                while j < len(lst):
+                    nx = lst[j]
+                    if isinstance(nx, ast.Assign) and len(nx.targets) == 1 and isinstance(nx.targets[0], ast.Attribute) and isinstance(nx.targets[0].value, ast.Name) \
+                            and nx.targets[0].value.id == x and not any(isinstance(n, ast.Name) and n.id == x for n in ast.walk(nx.value)) \
+                            and nx.targets[0].attr not in [kw.arg for kw in st.value.keywords] + [e[0] for e in extra]:
+                        extra.append((nx.targets[0].attr, nx.value))
+                        j += 1
+                    else:
+                        break
+                if extra:
+                    for (a, e) in extra:
+                        st.value.keywords.append(ast.keyword(arg=a, value=e))
+                    del lst[k + 1:j]
+                    changed = True
+            k += 1
+    if changed:
+        ast.fix_missing_locations(fn)
+    return changed
+
+
+def split_tuples(fn):
+    """`a, b = x, y` -> `a = x; b = y` (no target occurs in the values);  `t = (x, y)` ... `a, b = t` -> `a = x; b = y` when t's bindings
+    are that one tuple (of plain names not re-bound in between) and otherwise only `None`."""
+    changed = False
+    renumber(fn)
+
+    def names_in(e):
+        return {n.id for n in ast.walk(e) if isinstance(n, ast.Name)}
+
+    def tuple_source(t, at):
+        """the tuple literal bound to name t that reaches `at`, through single-binding copies `t = u`"""
+        for _ in range(5):
+            bs = [n for n in ast.walk(fn) if isinstance(n, ast.Assign) and len(n.targets) == 1 and isinstance(n.targets[0], ast.Name) and n.targets[0].id == t]
+            if len(_bindings(fn, t)) != len(bs):
+                return None
+            lits = [b for b in bs if isinstance(b.value, ast.Tuple)]
+            nones = [b for b in bs if isinstance(b.value, ast.Constant) and b.value.value is None]
+            copies = [b for b in bs if isinstance(b.value, ast.Name)]
+            if len(lits) == 1 and len(lits) + len(nones) == len(bs):
+                return lits[0]
+            if len(copies) == 1 and len(bs) == 1:
+                t = copies[0].value.id
+                continue
+            return None
+        return None
+    for lst in list(_stmt_lists(fn)):
+        k = 0
+        while k < len(lst):
+            st = lst[k]
+            if isinstance(st, ast.Assign) and len(st.targets) == 1 and isinstance(st.targets[0], (ast.Tuple, ast.List)) \
+                    and all(isinstance(e, ast.Name) for e in st.targets[0].elts):
+                tg = st.targets[0].elts
+                vals = None
+                if isinstance(st.value, (ast.Tuple, ast.List)) and len(st.value.elts) == len(tg) and not any(isinstance(e, ast.Starred) for e in st.value.elts):
+                    if not ({e.id for e in tg} & names_in(st.value)):
+                        vals = list(st.value.elts)
+                elif isinstance(st.value, ast.Name):
+                    src = tuple_source(st.value.id, st)
+                    if src is not None and len(src.value.elts) == len(tg) and all(isinstance(e, (ast.Name, ast.Constant)) for e in src.value.elts) \
+                            and src.lineno < st.lineno:
+                        ok = True
+                        for e in src.value.elts:
+                            if isinstance(e, ast.Name):
+                                for bnd in _bindings(fn, e.id):
+                                    if src.lineno < bnd.lineno < st.lineno:
+                                        ok = False
+                        if ok:
+                            vals = [copy.deepcopy(e) for e in src.value.elts]
+                if vals is not None:
+                    new = [ast.copy_location(ast.Assign(targets=[ast.Name(id=t.id, ctx=ast.Store())], value=v), st) for t, v in zip(tg, vals)]
+                    lst[k:k + 1] = new
+                    k += len(new)
+                    changed = True
+                    continue
+            k += 1
+    if changed:
+        ast.fix_missing_locations(fn)
+    return changed
+
+
+def normalise(fn):
+    ch = False
+    for _ in range(3):
+        c = scalarise_dict_literals(fn) | fold_attribute_stores(fn) | split_tuples(fn)
+        ch |= c
+        if not c:
+            break
+    return ch
+
+
 _CACHE: dict = {}
 
 
@@ -397,6 +600,8 @@ def inlined(mod, qual, keep=(), tail=False):
         ast.fix_missing_locations(f2)
         if inl.inlined:
             propagate_param_copies(f2)
+        changed = normalise(f2)
+        if inl.inlined or changed:
             renumber(f2)
             res = (f2, inl.inlined)
         else:
